@@ -176,6 +176,8 @@ PRELUDES = {
 
 
 def check_point(pt):
+    from ..core import inputs as _inputs
+    _inputs.process_prelude()   # explored in a process that has already read many other files (see core/inputs.py)
     text, toks = build_text(pt)
     for kw in PRELUDES.get(pt.get("prelude"), []):
         try:
